@@ -65,6 +65,7 @@ func run(c *vkit.Collector, rng *vkit.Rng, budget int) {
 	simpleTypes(c, rng, budget)
 	loops(c, rng, budget)
 	polygons(c, rng, budget)
+	latticeSweep(c, rng, budget)
 	c.Extra["violations_by_kind"] = perKind
 }
 
@@ -530,6 +531,91 @@ func polygons(c *vkit.Collector, rng *vkit.Rng, budget int) {
 		}
 	}
 	c.Extra["polygon_formats"] = formats
+}
+
+// ---- points on the (si,ti) lattice that are not cell centres ----
+
+// latticeSweep round-trips polygons whose vertices are exactly on the (si,ti) lattice with si and
+// ti at different levels: the four vertices of a cell (every face, many levels) and loops of true
+// centres of one level plus one or two such lattice points. The cell-centre detection must report
+// them as not snapped, or the decoder reconstructs a different point.
+func latticeSweep(c *vkit.Collector, rng *vkit.Rng, budget int) {
+	check := func(p *s2.Polygon, class string, withT bool) {
+		b, err := cg.Enc(func(w *bytes.Buffer) error { return p.Encode(w) })
+		c.Class(class)
+		c.Eval(class+":"+fmt.Sprintf("%x", b[:min(len(b), 80)]), true)
+		q := new(s2.Polygon)
+		derr := q.Decode(bytes.NewReader(b))
+		lp, _, _, _ := s2.VerifC09PolygonFields(p)
+		rep := map[string]interface{}{"type": "Polygon", "class": class, "bytes": fmt.Sprintf("%x", b[:min(len(b), 400)])}
+		if len(lp) > 0 {
+			vs, _, _, _ := s2.VerifC09LoopFields(lp[0])
+			rep["loop0"] = hexPts(vs)
+			for _, v := range vs {
+				f, si, ti, lv := s2.VerifC09XYZToFaceSiTi(v)
+				if lv >= 0 && (30-trailingZeros(si|1<<31) != lv || 30-trailingZeros(ti|1<<31) != lv) {
+					violate(c, "xyzToFaceSiTi.mixedLevels", "a lattice point whose si and ti are at different levels is reported as a cell centre", map[string]interface{}{"p": hexPts([]s2.Point{v}), "face": f, "si": si, "ti": ti, "level": lv})
+				}
+			}
+		}
+		if err != nil || derr != nil {
+			violate(c, "Polygon.roundtrip", fmt.Sprintf("encode/decode error %v %v", err, derr), rep)
+			return
+		}
+		lq, _, _, _ := s2.VerifC09PolygonFields(q)
+		if len(lq) != len(lp) {
+			violate(c, "Polygon.roundtrip", "loop count differs", rep)
+			return
+		}
+		var terms []string
+		for i := range lp {
+			va, oa, da, _ := s2.VerifC09LoopFields(lp[i])
+			vb, ob, db, _ := s2.VerifC09LoopFields(lq[i])
+			terms = append(terms, cg.CLoopT(lq[i], len(b) > 0 && b[0] == 4 && len(va) >= 64))
+			if !ptsEq(va, vb) || oa != ob || da != db {
+				rep["want"], rep["got"] = hexPts(va), hexPts(vb)
+				violate(c, "Polygon.roundtrip", "vertices differ (lattice points that are not cell centres)", rep)
+			}
+		}
+		if withT {
+			c.Check("encode_polygon "+class, vkit.App("opt_eqb bytes_eqb", vkit.App("encode_polygon", cg.InZ(cg.PolygonT(p))), vkit.App("Some", cg.InZ(cg.BytesT(b)))))
+			if len(b) > 0 && b[0] == 4 {
+				c.Check("decode_polygon "+class, vkit.App("result_eqb dpolygon_eqb", vkit.App("decode_polygon", cg.InZ(cg.BytesT(b))), vkit.App("Ok", vkit.App("DCompressed", cg.InZ("["+strings.Join(terms, "; ")+"]")))))
+			}
+		}
+	}
+	k := 0
+	for face := 0; face < 6; face++ {
+		for _, level := range []int{0, 1, 2, 5, 9, 12, 17, 20, 24, 29, 30} {
+			cell := s2.CellFromCellID(cg.CellAt(rng, face, level, rng.Intn(4)))
+			check(s2.PolygonFromCell(cell), "polygon:from-cell", k%6 == 0)
+			k++
+		}
+	}
+	for r := 0; r < 40*budget; r++ {
+		level := rng.Intn(31)
+		face := rng.Intn(6)
+		n := 3 + rng.Intn(4)
+		vs := make([]s2.Point, 0, n+2)
+		for i := 0; i < n; i++ {
+			vs = append(vs, cg.CellAt(rng, face, level, 0).Point())
+		}
+		for i := 0; i < 1+rng.Intn(2); i++ {
+			j := rng.Intn(len(vs) + 1)
+			vs = append(vs[:j], append([]s2.Point{cg.LatticePoint(rng, face, level, rng.Intn(3))}, vs[j:]...)...)
+		}
+		p := s2.VerifC09PolygonRaw([]*s2.Loop{cg.RawLoop(rng, vs)}, false, cg.AnyRect(rng))
+		check(p, "polygon:centres+lattice-point", r%4 == 0)
+	}
+}
+
+func trailingZeros(x uint32) int {
+	n := 0
+	for x&1 == 0 {
+		x >>= 1
+		n++
+	}
+	return n
 }
 
 // ---- values the encoder accepts but the decoder refuses ----
